@@ -5,28 +5,47 @@ SPEC = {
     "tests": [
         {"name": "TestPreloadEquivalence", "quick": 2400, "thorough": 160000, "shards_quick": 8, "shards_thorough": 16, "timeout": 2400},
         {"name": "TestKnownWitness", "quick": 1, "thorough": 1, "shards": 1, "timeout": 120},
+        {"name": "TestNoEntries", "quick": 1200, "thorough": 40000, "shards_quick": 4, "shards_thorough": 8, "timeout": 1200},
+        {"name": "TestKnownWitnessNoEntries", "quick": 1, "thorough": 1, "shards": 1, "timeout": 120},
     ],
     # thorough tier: coverage-guided campaigns over the same generators + oracles (rapid.MakeFuzz)
-    "fuzz": [{"name": "FuzzModel", "seconds": 60}],
+    "fuzz": [{"name": "FuzzModel", "seconds": 60}, {"name": "FuzzNoEntries", "seconds": 20}],
     "rule": ("rapid-generated ammo files (internal/ammogen, all layout knobs; tags drawn from a small pool so they repeat; untagged "
-             "entries) in the four HTTP formats x limit 0..12 x passes 0..3 x chosencases (none / a subset of the pool incl. the empty "
+             "entries) in the four HTTP formats x limit 0..12 x passes 0..3 x chosencases (none / the key given with an explicitly empty list, "
+             "`chosencases: []`, decoded through the config path like every other setting / a subset of the pool incl. the empty "
              "tag / a tag matching nothing) x the documented header/date ammo middleware (absent in two cases of three; default or custom "
              "headerName outside the ammo's own header names, location unset / UTC / EST); each case builds the provider twice, preload off and on, through config.DecodeAndValidate "
              "and drains both. Non-trivial = chosencases selects a proper non-empty subset, or a bound is hit; distinct = hash of the "
              "case. Cases whose filter matches nothing are steered away while the known finding is listed (counted in excluded_known); "
-             "its fixed witness runs in TestKnownWitness."),
+             "its fixed witness runs in TestKnownWitness. TestNoEntries: ammo files WITHOUT any entry (empty; 1-4 blank / whitespace-only lines, "
+             "LF or CRLF, the last one possibly unterminated; uri/uripost files and inline `uris` holding only [Header: value] directives; an "
+             "http/json file holding an empty array) x limit {0,1,3,5} x passes 0..3 x chosencases (absent / explicitly empty / 1-2 tags), "
+             "built and run with preload off and on; non-trivial = both providers were built and run. Such a file is not the listed "
+             "finding's shape (entries exist, none matches) and is never excused by it."),
     "floors": {"TestPreloadEquivalence/proper_subset": 0.15, "TestPreloadEquivalence/filter_x_limit": 0.08,
                "TestPreloadEquivalence/filter_x_passes": 0.08, "TestPreloadEquivalence/limit_hit_with_filter": 0.03,
                "TestPreloadEquivalence/date_middleware": 0.13, "TestPreloadEquivalence/date_middleware_entry_redelivered": 0.094,
-               "TestPreloadEquivalence/date_middleware_redelivered_entry_has_headers": 0.07},
+               "TestPreloadEquivalence/date_middleware_redelivered_entry_has_headers": 0.07,
+               "TestPreloadEquivalence/explicit_empty_chosencases": 0.07, "TestPreloadEquivalence/explicit_empty_chosencases_x_limit": 0.035,
+               "TestPreloadEquivalence/explicit_empty_chosencases_limit_cuts_run": 0.02,
+               "TestNoEntries/none_with_chosencases": 0.25, "TestNoEntries/none_with_chosencases_passes_not_1": 0.2,
+               "TestNoEntries/none_shape_empty": 0.12, "TestNoEntries/none_shape_blank_lines": 0.12,
+               "TestNoEntries/none_shape_directives_only": 0.12, "TestNoEntries/none_shape_json_empty_array": 0.06,
+               "TestNoEntries/none_format_raw": 0.12, "TestNoEntries/none_format_uri": 0.12, "TestNoEntries/none_format_uripost": 0.12,
+               "TestNoEntries/none_with_explicit_empty_chosencases": 0.08},
     "manifest": {
         "technique": "differential property testing (rapid): the same generated file and settings with preload off vs on, plus an absolute model of chosencases/limit/passes",
         "text": ("Both providers must deliver exactly the entries whose tag is listed, in file order, cyclically, identical item by item "
                  "(method, URI, body, tag, Host, headers), stop after min(limit, passes*selected) delivered items and end the same way "
                  "(Run nil, end of ammo observed). With the header/date middleware configured every delivered request, on every pass and in "
-                 "both modes, carries exactly one non-empty value of the date header and no other header the entry does not define."),
+                 "both modes, carries exactly one non-empty value of the date header and no other header the entry does not define. "
+                 "An explicitly empty chosencases list names no tag to restrict the test to and is judged as no filter (limit and passes "
+                 "bound the run as without the key). For a file without entries: the preload flag must not change whether the provider can "
+                 "be constructed, neither mode delivers anything, and both runs end the same way (Run error or not, end of ammo seen, no hang)."),
         "note": ("One listed known finding (filter matching nothing ends differently with preload) is excluded by construction and "
-                 "re-confirmed by a fixed witness each run; any other disagreement is a violation."),
+                 "re-confirmed by a fixed witness each run; any other disagreement is a violation. For files without entries only sameness of "
+                 "the ending is asserted, not which ending it is (the docs do not say that an empty file must fail)."),
     },
-    "assumptions": ["unbounded cells compare the first 3E+2 items"],
+    "assumptions": ["unbounded cells compare the first 3E+2 items",
+                    "`chosencases: []` means no filter (confutil.IsChosenCase: 'If no chosenCases provided - returns true')"],
 }
